@@ -125,6 +125,64 @@ func checkWordPositions(w *World, r *Report, fn *ssa.Function, name string, resI
 				}
 			}
 			r.Check(guarded, "R-WPC2", key, pos, "the zero count is not control dependent on the examined word being non-zero (a zero word would yield a position outside the word)", "dominated by the w != 0 edge")
+			// R-FIRSTHIT: the first hit of a scan is the answer: where a returned position is computed, the scan ends
+			r.Rule("R-FIRSTHIT", "a returned position computed from a non-zero word inside a scan loop is never carried round that loop (it does not flow into a loop-header phi): after the first hit the scan is over (break / return / a fresh variable per iteration). A scan that carries on overwrites the nearest hit with a farther one")
+			// the position must not be carried round the scan loop: it never flows into a loop-header phi
+			var carried *ssa.Phi
+			{
+				seenV := map[ssa.Value]bool{}
+				var follow func(v ssa.Value)
+				follow = func(v ssa.Value) {
+					if v == nil || seenV[v] || v.Referrers() == nil {
+						return
+					}
+					seenV[v] = true
+					for _, ref := range *v.Referrers() {
+						switch x := ref.(type) {
+						case *ssa.Phi:
+							if isLoopHeaderPhi(x) && loopBody(x.Block())[call.Block()] {
+								// not carried when the edge into the header is only taken with the merged value equal to a
+								// negative sentinel (`nxt = find(..); if nxt != -1 { break }`): a position is never negative
+								sentinelOnly := false
+								if vp, ok := v.(*ssa.Phi); ok {
+									for i, e := range x.Edges {
+										if e != v {
+											continue
+										}
+										for _, cd := range fa.Conds(x.Block().Preds[i]) {
+											bo, ok := cd.V.(*ssa.BinOp)
+											if !ok || (bo.Op != token.EQL && bo.Op != token.NEQ) || stripConv(bo.X) != ssa.Value(vp) {
+												continue
+											}
+											if k, ok := constInt64(stripConv(bo.Y)); ok && k < 0 && (bo.Op == token.EQL) == cd.Pol {
+												sentinelOnly = true
+											}
+										}
+									}
+								}
+								if sentinelOnly {
+									continue
+								}
+								carried = x
+								return
+							}
+							follow(x)
+						case *ssa.Convert:
+							follow(x)
+						case *ssa.BinOp:
+							if x.Op == token.ADD || x.Op == token.SUB {
+								follow(x)
+							}
+						}
+					}
+				}
+				follow(call)
+			}
+			why := ""
+			if carried != nil {
+				why = "the position computed at " + pos + " is carried round the loop headed at " + w.InstrPos(carried.Block().Instrs[0]) + " (variable " + carried.Comment + "): the scan continues after a hit and a later word can replace the answer"
+			}
+			r.Check(carried == nil, "R-FIRSTHIT", key, pos, why, "computed where the scan ends")
 		}
 	}
 	return nsites
